@@ -42,10 +42,10 @@ func (abortPanic) HarnessPanic() {}
 
 // Strategy names.
 const (
-	Random = iota // uniform among runnable tasks at every yield
-	Sticky        // switch with probability 1/StickyDen
-	PCT           // priorities with D change points
-	RoundRobin    // quantum Q
+	Random     = iota // uniform among runnable tasks at every yield
+	Sticky            // switch with probability 1/StickyDen
+	PCT               // priorities with D change points
+	RoundRobin        // quantum Q
 	NumStrategies
 )
 
